@@ -9,6 +9,9 @@ VERSIONS = ['3.6', '3.7', '3.8', '3.9', '3.10', '3.11', '3.12', '3.13', '3.14']
 
 SNIPPETS = [
     "x = 1\n",
+    # a statement that ends in a backslash continuation at the end of the file, in every newline style
+    "x = 1 \\\n", "x = 1 \\\r", "x = 1 \\\r\n", "y = 0\rx = 1 \\\r", "def f():\r    return 1 + \\\r",
+    "if x: \\\n", "x = [1,\n     2] \\\n\n",
     "import os\nimport sys\n\nx = os.path.join(sys.prefix, 'a')\n",
     "def f(a, b=3, *args, **kw):\n    return a + b\n",
     "def f():\n    if x:\n        return 1\n    else:\n        return 2\n\n\ndef g():\n    pass\n",
@@ -182,7 +185,20 @@ def window(rng, max_lines):
     return ''.join(lines[start:start + n])
 
 
+def restyle(text, nl):
+    """The same text with another line ending (only texts that use plain \\n throughout)."""
+    if nl == '\n' or '\r' in text:
+        return text
+    return text.replace('\n', nl)
+
+
 def base_text(rng, max_lines=40):
+    if rng.random() < 0.12:
+        return restyle(_base_text(rng, max_lines), rng.choice(['\r', '\r\n']))
+    return _base_text(rng, max_lines)
+
+
+def _base_text(rng, max_lines=40):
     r = rng.random()
     if r < 0.03:
         return outlier_text(rng)
